@@ -146,11 +146,16 @@ def S_sgn0(e, I, O):
 
 def S_bits_cmp(n, bound, geq=False):
     def spec(e, I, O):
-        v = wsum(I[:n])
-        c = f"(< {v} {bound})"
+        bits = AND(*[isbit(x) for x in I[:n]])
+        if n >= 32:
+            # "the integer represented by the bits" vs the bound as an unsigned bit-vector comparison (same
+            # mathematical meaning; lets the solver bit-blast instead of doing 255-bit linear arithmetic)
+            c = "true" if bound >= (1 << n) else f"(bvult {bv_of_bits(I[:n])} {bvlit(bound, n)})"
+        else:
+            c = f"(< {wsum(I[:n])} {bound})"
         if geq:
             c = NOT(c)
-        return AND(*[isbit(x) for x in I[:n]], eq(O[0], b2i(c)))
+        return AND(bits, eq(O[0], b2i(c)))
     return spec
 
 
@@ -296,16 +301,20 @@ def family(tier, seed):
         for canon in [True, False]:
             E.append(entry("to_le_bits", S_to_bits(nb, canon), [x], {"nb": nb, "canon": canon}, alt=[[0], [(1 << nb) - 1]]))
         E.append(entry("to_be_bits", S_to_bits(nb, True, be=True), [x], {"nb": nb, "canon": True}))
-    for canon in [True, False]:
+    for canon in ([False] if tier == "quick" else [True, False]):
         E.append(entry("to_le_bits", S_to_bits(None, canon), [rf()], {"nb": None, "canon": canon}, alt=[[0], [P - 1], [1]]))
         E.append(entry("to_le_bits", S_to_bits(255, canon), [rf()], {"nb": 255, "canon": canon}, alt=[[0], [P - 1]]))
+    if tier == "quick":
+        for canon in [True, False]:
+            E.append(entry("to_le_bits", S_to_bits(254, canon), [rnd.randrange(1 << 254)], {"nb": 254, "canon": canon}, alt=[[0], [(1 << 254) - 1]]))
     for nb in ([1, 2, 4, 31] if tier == "quick" else [1, 2, 3, 4, 8, 16, 31]):
         x = rnd.randrange(1 << (8 * nb))
         E.append(entry("to_le_bytes", S_to_bytes(nb), [x], {"nb": nb}, alt=[[0], [(1 << (8 * nb)) - 1]]))
         E.append(entry("to_be_bytes", S_to_bytes(nb, be=True), [x], {"nb": nb}))
-    E.append(entry("to_le_bytes", S_to_bytes(None), [rf()], {"nb": None}, alt=[[0], [P - 1]]))
-    E.append(entry("to_le_bytes", S_to_bytes(32), [rf()], {"nb": 32}, alt=[[0], [P - 1]]))
-    for n in ([1, 3, 8, 64, 255] if tier == "quick" else [1, 2, 3, 8, 9, 64, 128, 254, 255, 256, 300]):
+    if tier != "quick":
+        E.append(entry("to_le_bytes", S_to_bytes(None), [rf()], {"nb": None}, alt=[[0], [P - 1]]))
+        E.append(entry("to_le_bytes", S_to_bytes(32), [rf()], {"nb": 32}, alt=[[0], [P - 1]]))
+    for n in ([1, 3, 8, 64, 200] if tier == "quick" else [1, 2, 3, 8, 9, 64, 128, 254, 255, 256, 300]):
         bits = [rnd.randrange(2) for _ in range(n)]
         E.append(entry("from_le_bits", S_from(n, 2), bits, {"n": n}, alt=[[1] * n, [0] * n]))
         E.append(entry("from_be_bits", S_from(n, 2, be=True), bits, {"n": n}))
@@ -318,7 +327,7 @@ def family(tier, seed):
         E.append(entry("to_le_chunks", S_to_chunks(bits, nb), [x], {"bits": bits, "nb": nb}, alt=[[0], [(1 << (bits * nb)) - 1]]))
     E.append(entry("sgn0", S_sgn0, [5], alt=[[0], [P - 1], [P - 2], [(P - 1) // 2]]))
     # ---- Canonicity ----
-    for n in ([3, 16, 255] if tier == "quick" else [1, 3, 8, 16, 64, 254, 255]):
+    for n in ([3, 16, 64, 254] if tier == "quick" else [1, 3, 8, 16, 64, 254, 255]):
         bits = [rnd.randrange(2) for _ in range(n)]
         E.append(entry("is_canonical", S_bits_cmp(n, P), bits, {"n": n}, alt=[[1] * n, [0] * n]))
         for bound in sorted({1, (1 << n) - 1, rnd.randrange(1, 1 << n), 1 << max(0, n - 1)}):
